@@ -231,12 +231,13 @@ def make_admonition(eng, nval, alphabet):
     opts_mod = M["myst_parser.parsers.options"]
     cls_extra = new_str(eng, "cls", nval, alphabet=alphabet)
     clen = new_int(eng, "clen", 0, nval)
+    csep = new_int(eng, "csep", 0, 2)  # class tokens are separated by any ASCII white space
     name_v = new_str(eng, "name", nval, alphabet=alphabet)
     has_name = new_bool(eng, "has_name")
     title_kind = new_int(eng, "title_kind", 0, 4)  # 0 none, 1 <p class=title>, 2 <div class="admonition-title">, 3 <p class="subtitle">, 4 <p class="x title">
     on = new_bool(eng, "html_admonition")
     img_other = new_bool(eng, "html_image_other")
-    body_kind = new_int(eng, "body_kind", 0, 2)
+    body_kind = new_int(eng, "body_kind", 0, 3)
     state = {}
     eng.witness_fn = lambda m: {"cls": eng.eval_model(m, state.get("cls", "")), "name": eng.eval_model(m, name_v) if eng.eval_model(m, has_name) else None,
                                "title_kind": eng.eval_model(m, title_kind), "html_admonition": eng.eval_model(m, on), "body_kind": eng.eval_model(m, body_kind), "other_ext": eng.eval_model(m, img_other)}
@@ -245,14 +246,16 @@ def make_admonition(eng, nval, alphabet):
         from harness.c16_html_ast import apply_events
 
         extra = lift(cls_extra)[: eng.concretize_int(clen)]
-        cls = join("", ["admonition ", extra]) if len(extra) else "admonition"
-        state["cls"] = cls
-        attrs = [("class", cls)]
-        hn = bool(has_name)
-        if hn:
-            attrs.append(("name", lift(name_v)))
         tk = eng.concretize_int(title_kind)
         bk = eng.concretize_int(body_kind)
+        hn = bool(has_name)
+        if tk or bk or hn:
+            eng.assume(csep == 0)  # the separator is varied on the simplest shape only
+        cls = join("", ["admonition" + " \t\n"[eng.concretize_int(csep)], extra]) if len(extra) else "admonition"
+        state["cls"] = cls
+        attrs = [("class", cls)]
+        if hn:
+            attrs.append(("name", lift(name_v)))
         ev = [("start", "div", attrs), ("data", "\n")]
         tcls = {1: "title", 2: "admonition-title", 3: "subtitle", 4: "x title"}
         if tk:
@@ -261,6 +264,10 @@ def make_admonition(eng, nval, alphabet):
             ev += [("start", "p", []), ("data", "para one"), ("end", "p"), ("data", "\n")]
         if bk == 2:
             ev += [("start", "b", []), ("data", "bold"), ("end", "b")]
+        if bk == 3:
+            # a paragraph whose inline elements are separated by white space only: the spaces are part of the Markdown
+            ev = ev[:-4] + [("start", "p", []), ("start", "kbd", []), ("data", "Ctrl"), ("end", "kbd"), ("data", " "), ("start", "kbd", []), ("data", "C"), ("end", "kbd"), ("data", "  "), ("entityref", "amp"),
+                            ("data", " "), ("comment", "c"), ("end", "p"), ("data", "\n")]
         ev += [("end", "div")]
         tree = apply_events(ph, ev)
         h2n.tokenize_html = lambda text: tree
@@ -294,6 +301,8 @@ def make_admonition(eng, nval, alphabet):
             exp_body += "para one\n\n"
         if bk == 2:
             exp_body += "<b>bold</b>"
+        if bk == 3:
+            exp_body = exp_body[: -len("para one\n\n")] + "<kbd>Ctrl</kbd> <kbd>C</kbd>  &amp; <!--c-->\n\n"
         bt = bodytext if isinstance(bodytext, str) else bodytext.concretize()
         eng.require(bt.strip() == exp_body.strip(), "admonition-body", "%r vs %r" % (bt, exp_body))
         eng.note("directive")
@@ -662,6 +671,9 @@ def _replay_adm(real, rph, ropts, w):
         ev += [("start", "p", []), ("data", "para one"), ("end", "p"), ("data", "\n")]
     if bk == 2:
         ev += [("start", "b", []), ("data", "bold"), ("end", "b")]
+    if bk == 3:
+        ev = ev[:-4] + [("start", "p", []), ("start", "kbd", []), ("data", "Ctrl"), ("end", "kbd"), ("data", " "), ("start", "kbd", []), ("data", "C"), ("end", "kbd"), ("data", "  "), ("entityref", "amp"),
+                        ("data", " "), ("comment", "c"), ("end", "p"), ("data", "\n")]
     ev += [("end", "div")]
     tree = apply_events(rph, ev)
     real.tokenize_html = lambda text: tree
@@ -687,7 +699,7 @@ def _replay_adm(real, rph, ropts, w):
         exp["name"] = w["name"]
     if got != exp:
         return ("C17/admonition-options:%s" % _cls(attrs), "div attributes %r arrive as options %r (option text %r)" % (exp, got, content))
-    exp_body = ("My *T*\n\n" if tk == 3 else "") + ("para one\n\n" if bk >= 1 else "") + ("<b>bold</b>" if bk == 2 else "")
+    exp_body = ("My *T*\n\n" if tk == 3 else "") + ("para one\n\n" if bk in (1, 2) else "") + ("<b>bold</b>" if bk == 2 else "") + ("<kbd>Ctrl</kbd> <kbd>C</kbd>  &amp; <!--c-->\n\n" if bk == 3 else "")
     if body.strip() != exp_body.strip():
         return ("C17/admonition-body", "body %r expected %r" % (body, exp_body))
     return None
